@@ -258,7 +258,10 @@ def ntcg_correspondence(rng, n_gen, nmax=3):
         return (f"ntcg {n} {len(c['bub'])} {c['aeq'].shape[0]} {4 * (n + len(c['bub'])) + 12} {n + 2} {int(bool(c['improve_tcg']))} | {ol(xl)} ; {ol(xu)} ; {rl(c['aub'])} ; {rl(c['bub'])} ; "
                 f"{rl(c['aeq'])} ; {rl(c['beq'])} ; {exact.rs(Fr(float(c['delta'])))}")
     ans = _stream_driver([line(c) for c in cases], 12)
-    agree, skipped, mism, second = 0, 0, [], 0
+    agree, skipped, mism, second, degenerate = 0, 0, [], 0, 0
+
+    def viol2(c, x):
+        return float(np.sum(np.maximum(c["aub"] @ x - c["bub"], 0.0) ** 2) + np.sum((c["aeq"] @ x - c["beq"]) ** 2))
     for c, a in zip(cases, ans):
         if a is None:
             skipped += 1
@@ -274,9 +277,12 @@ def ntcg_correspondence(rng, n_gen, nmax=3):
         sc = max(float(np.linalg.norm(s)), float(np.linalg.norm(mdl)), 1e-300)
         if float(np.linalg.norm(mdl - s)) <= 1e-6 * sc:
             agree += 1
+        elif a.startswith("ok1d") and viol2(c, s) <= viol2(c, mdl) * (1 + 1e-9) + 1e-300:
+            degenerate += 1       # one free variable left: the direction of rotation is 0 / 0, binary64 rotates along rounding noise
         else:
             mism.append((c, f"exact model step {mdl.tolist()} vs implementation {np.asarray(s).tolist()} (improve_tcg={c['improve_tcg']})"))
     return {"cases": len(cases), "agree": agree, "skipped_too_expensive": skipped, "mismatches": len(mism), "entered_the_second_phase": second,
+            "degenerate_second_phase_accepted": degenerate,
             "origin_infeasible": sum(1 for c in cases if np.any(c["bub"] < 0) or np.any(c["beq"] != 0)), "left_out_because_of_an_all_zero_row": n_zero}, mism
 
 
